@@ -7,12 +7,74 @@ Definition str := list Z.                       (* observed strings: code points
 Definition render (bs : list bool) : str := map (fun b : bool => if b then 49%Z else 48%Z) bs.
 Definition str_eqb : str -> str -> bool := list_eqb Z.eqb.
 
+(* ---- one QsysResult object observed several times while its shots are changed in between ----
+   The state of the object is the list of its shots' entry lists; the public mutators are list operations on it
+   (an index out of range: no effect; the harness does not emit such a step).  A query is one of the four
+   observations below, made on the object in its CURRENT state; the property promises that each of them is the
+   conversion of the entries the shots hold at that moment, whatever was asked or changed before. *)
+Inductive mut :=
+| MAppend (i : nat) (e : entry)                  (* results[i].append(tag, data) / results[i].entries.append(...) *)
+| MSetEntry (i j : nat) (e : entry)              (* results[i].entries[j] = (tag, data) *)
+| MSetData (i j : nat) (d : data)                (* the value of entry j changed (list value edited in place) *)
+| MDelEntry (i j : nat)                          (* del results[i].entries[j] *)
+| MInsEntry (i j : nat) (e : entry)              (* results[i].entries.insert(j, ...) *)
+| MSetEntries (i : nat) (es : list entry)        (* results[i].entries = [...] / [:] = ... / results[i] = QsysShot(...) *)
+| MInsShot (i : nat) (es : list entry)           (* results.insert(i, QsysShot(...)) / results.append(...) *)
+| MDelShot (i : nat)                             (* del results[i] *)
+| MSwap (i j : nat).                             (* results[i], results[j] = results[j], results[i] *)
+Inductive query :=
+| QBits (i : nat) (obs : res (list (tag * str)))                       (* results[i].to_register_bits() *)
+| QStrings (sn sl : bool) (obs : res (list (tag * list str)))          (* register_bitstrings(sn, sl) *)
+| QCounts (sn sl : bool) (obs : res (list (tag * list (str * nat))))   (* register_counts(sn, sl) *)
+| QCollate (obs : res (list (list (tag * str) * nat))).                (* collated_counts() *)
+Inductive step := SMut (m : mut) | SQuery (q : query).
+
 Inductive case :=
 | CParse (t : tag) (obs : option (tag * N))
 | CBits (es : list entry) (obs : res (list (tag * str)))
 | CMulti (sn sl : bool) (shots : list (list entry))
          (obs : res (list (tag * list str))) (counts : res (list (tag * list (str * nat))))
-| CCollate (shots : list (list entry)) (obs : res (list (list (tag * str) * nat))).
+| CCollate (shots : list (list entry)) (obs : res (list (list (tag * str) * nat)))
+| CSeq (shots : list (list entry)) (steps : list step).
+
+Fixpoint upd_nth {A} (l : list A) (n : nat) (f : A -> A) : list A :=
+  match l, n with
+  | [], _ => []
+  | x :: r, O => f x :: r
+  | x :: r, S k => x :: upd_nth r k f
+  end.
+Fixpoint del_nth {A} (l : list A) (n : nat) : list A :=
+  match l, n with
+  | [], _ => []
+  | _ :: r, O => r
+  | x :: r, S k => x :: del_nth r k
+  end.
+Definition ins_nth {A} (l : list A) (n : nat) (x : A) : list A :=
+  if n <=? length l then firstn n l ++ x :: skipn n l else l.
+Definition state := list (list entry).
+Definition apply_mut (st : state) (m : mut) : state :=
+  match m with
+  | MAppend i e => upd_nth st i (fun es => es ++ [e])
+  | MSetEntry i j e => upd_nth st i (fun es => upd_nth es j (fun _ => e))
+  | MSetData i j d => upd_nth st i (fun es => upd_nth es j (fun e => (fst e, d)))
+  | MDelEntry i j => upd_nth st i (fun es => del_nth es j)
+  | MInsEntry i j e => upd_nth st i (fun es => ins_nth es j e)
+  | MSetEntries i es => upd_nth st i (fun _ => es)
+  | MInsShot i es => ins_nth st i es
+  | MDelShot i => del_nth st i
+  | MSwap i j =>
+      match nth_error st i, nth_error st j with
+      | Some a, Some b => upd_nth (upd_nth st i (fun _ => b)) j (fun _ => a)
+      | _, _ => st
+      end
+  end.
+(* every query is checked against the state reached by the mutations made before it *)
+Fixpoint run_steps (chk : state -> query -> bool) (st : state) (steps : list step) : bool :=
+  match steps with
+  | [] => true
+  | SMut m :: r => run_steps chk (apply_mut st m) r
+  | SQuery q :: r => chk st q && run_steps chk st r
+  end.
 
 Definition res_eqb {A} (eqb : A -> A -> bool) (a b : res A) : bool :=
   match a, b with Ok x, Ok y => eqb x y | ValueError, ValueError => true | _, _ => false end.
@@ -37,29 +99,48 @@ Definition model_multi (sn sl : bool) (shots : list (list entry)) : res (list (t
 Definition tuple_eqb := list_eqb ts_eqb.
 Definition model_collate (shots : list (list entry)) : res (list (list (tag * str))) :=
   mapM (fun es => bind (collated_shot es) (fun l => Ok (map (fun '(t, bs) => (t, render bs)) l))) shots.
+(* the Counter's keys are tuples of (tag, string) pairs in the order the tags first occur in the shot: two shots
+   with the same pairs in another order give two keys.  The property speaks of the per-tag strings, not of the
+   order of the pairs inside a key, so keys are compared up to that order and the counts of keys that are
+   permutations of each other are added up (thorough tier, seed 0: shots [a[0],zz9] and [zz9,a[0]]) *)
+Definition merged (obs : list (list (tag * str) * nat)) (tp : list (tag * str)) : nat :=
+  fold_right (fun tn acc => if perm_eqb ts_eqb (fst tn) tp then snd tn + acc else acc) 0 obs.
 Definition collate_ok (obs : list (list (tag * str) * nat)) (tuples : list (list (tag * str))) : bool :=
-  forallb (fun '(tp, n) => Nat.eqb (count (perm_eqb ts_eqb) tp tuples) n && negb (Nat.eqb n 0)) obs &&
-  Nat.eqb (fold_right (fun tn acc => snd tn + acc) 0 obs) (length tuples) &&
-  nodupb (perm_eqb ts_eqb) (map fst obs).
+  forallb (fun '(tp, n) => Nat.eqb (count (perm_eqb ts_eqb) tp tuples) (merged obs tp) && negb (Nat.eqb n 0)) obs &&
+  Nat.eqb (fold_right (fun tn acc => snd tn + acc) 0 obs) (length tuples).
+
+Definition counts_vs (counts : res (list (tag * list (str * nat)))) (m : res (list (tag * list str))) : bool :=
+  match counts, m with
+  | Ok cs, Ok sd => counts_ok cs sd
+  | ValueError, ValueError => true
+  | _, _ => false
+  end.
+Definition strings_eqb := res_eqb (perm_eqb (pair_eqb tag_eqb (list_eqb str_eqb))).
+Definition corr_bits (es : list entry) (obs : res (list (tag * str))) : bool :=
+  res_eqb (perm_eqb ts_eqb) obs (model_bits es).
+Definition corr_collate (shots : list (list entry)) (obs : res (list (list (tag * str) * nat))) : bool :=
+  match obs, model_collate shots with
+  | Ok o, Ok tuples => collate_ok o tuples
+  | ValueError, ValueError => true
+  | _, _ => false
+  end.
+Definition corr_query (st : state) (q : query) : bool :=
+  match q with
+  | QBits i obs => match nth_error st i with Some es => corr_bits es obs | None => false end
+  | QStrings sn sl obs => strings_eqb obs (model_multi sn sl st)
+  | QCounts sn sl counts => counts_vs counts (model_multi sn sl st)
+  | QCollate obs => corr_collate st obs
+  end.
 
 Definition corr (c : case) : bool :=
   match c with
   | CParse t obs => option_eqb (pair_eqb tag_eqb N.eqb) obs (parse_tag_n t)
-  | CBits es obs => res_eqb (perm_eqb ts_eqb) obs (model_bits es)
+  | CBits es obs => corr_bits es obs
   | CMulti sn sl shots obs counts =>
       let m := model_multi sn sl shots in
-      res_eqb (perm_eqb (pair_eqb tag_eqb (list_eqb str_eqb))) obs m &&
-      match counts, m with
-      | Ok cs, Ok sd => counts_ok cs sd
-      | ValueError, ValueError => true
-      | _, _ => false
-      end
-  | CCollate shots obs =>
-      match obs, model_collate shots with
-      | Ok o, Ok tuples => collate_ok o tuples
-      | ValueError, ValueError => true
-      | _, _ => false
-      end
+      strings_eqb obs m && counts_vs counts m
+  | CCollate shots obs => corr_collate shots obs
+  | CSeq shots steps => run_steps corr_query shots steps
   end.
 
 (* ---- monitor: the specification on the implementation's observations ---- *)
@@ -86,25 +167,30 @@ Definition spec_multi (sn sl : bool) (shots : list (list entry)) : res (list (ta
 Definition spec_collate_shot (es : list entry) : res (list (tag * str)) :=
   mapM (fun t => bind (mapM cast (flatten (values_of es t))) (fun bs => Ok (t, render bs)))
        (nodup (list_eq_dec Z.eq_dec) (map fst es)).
+Definition mon_collate (shots : list (list entry)) (obs : res (list (list (tag * str) * nat))) : bool :=
+  match obs, mapM spec_collate_shot shots with
+  | Ok o, Ok tuples =>
+      (* tuples compared up to the order of their (tag, string) pairs *)
+      forallb (fun '(tp, n) => Nat.eqb (count (perm_eqb ts_eqb) tp tuples) (merged o tp)) o &&
+      Nat.eqb (fold_right (fun tn acc => snd tn + acc) 0 o) (length tuples)
+  | ValueError, ValueError => true
+  | _, _ => false
+  end.
+(* the specification of each query on the entries the shots hold when it is made *)
+Definition mon_query (st : state) (q : query) : bool :=
+  match q with
+  | QBits i obs => match nth_error st i with Some es => mon_bits es obs | None => false end
+  | QStrings sn sl obs => strings_eqb obs (spec_multi sn sl st)
+  | QCounts sn sl counts => counts_vs counts (spec_multi sn sl st)
+  | QCollate obs => mon_collate st obs
+  end.
 Definition mon (c : case) : bool :=
   match c with
   | CParse t obs => true
   | CBits es obs => mon_bits es obs
   | CMulti sn sl shots obs counts =>
       let m := spec_multi sn sl shots in
-      res_eqb (perm_eqb (pair_eqb tag_eqb (list_eqb str_eqb))) obs m &&
-      match counts, m with
-      | Ok cs, Ok sd => counts_ok cs sd
-      | ValueError, ValueError => true
-      | _, _ => false
-      end
-  | CCollate shots obs =>
-      match obs, mapM spec_collate_shot shots with
-      | Ok o, Ok tuples =>
-          (* tuples compared up to the order of their (tag, string) pairs *)
-          forallb (fun '(tp, n) => Nat.eqb (count (perm_eqb ts_eqb) tp tuples) n) o &&
-          Nat.eqb (fold_right (fun tn acc => snd tn + acc) 0 o) (length tuples)
-      | ValueError, ValueError => true
-      | _, _ => false
-      end
+      strings_eqb obs m && counts_vs counts m
+  | CCollate shots obs => mon_collate shots obs
+  | CSeq shots steps => run_steps mon_query shots steps
   end.
